@@ -20,12 +20,56 @@ func init() {
 
 type rpcDo struct {
 	do, handler *ssa.Function
-	reg         *ssa.MapUpdate
+	reg         ssa.Instruction // the registration in Do: the map update, or the call of the method that makes it
 	cas         *ssa.Call
 	casCell     ssa.Value
 	doneCell    ssa.Value
 	resCell     ssa.Value
 	closeDefer  ssa.Instruction
+}
+
+// rpcEdit is one update of the engine's handler table e.rpc made by fn: the
+// map update itself, or the call of a method of the engine that makes it
+// (setHandler(id, fn)); key and val are in fn's terms (a method's parameters
+// are replaced by the arguments of the call).
+type rpcEdit struct {
+	at      ssa.Instruction // in fn: the MapUpdate, or the call of the method
+	inner   *ssa.MapUpdate  // the update itself
+	keyDesc string          // description of the key in fn's terms
+	val     ssa.Value       // the value stored, in fn's terms
+	locked  bool            // made under the engine's mux
+}
+
+func rpcEdits(fn *ssa.Function) []rpcEdit {
+	var out []rpcEdit
+	ls := engine.Locksets(fn)
+	for _, mu := range mapUpdatesOf(fn, "p:e.rpc") {
+		out = append(out, rpcEdit{at: mu, inner: mu, keyDesc: engine.Describe(mu.Key), val: mu.Value, locked: heldAt(ls, mu, "p:e.mux")})
+	}
+	for _, hc := range engine.Calls(fn) {
+		h := hc.Common().StaticCallee()
+		if h == nil || len(h.Blocks) == 0 || h.Pkg != fn.Pkg || len(h.Params) == 0 || h == fn {
+			continue
+		}
+		recv := "p:" + engine.ParamName(h.Params[0])
+		hls := engine.Locksets(h)
+		for _, mu := range mapUpdatesOf(h, recv+".rpc") {
+			e := rpcEdit{at: hc, inner: mu, keyDesc: engine.Describe(mu.Key), val: mu.Value, locked: heldAt(hls, mu, recv+".mux")}
+			// parameters → arguments
+			for i, p := range h.Params {
+				args := engine.Args(hc.Common())
+				if i >= len(args) {
+					break
+				}
+				e.keyDesc = replaceToken(e.keyDesc, "p:"+engine.ParamName(p), engine.Describe(args[i]))
+			}
+			if a := argOfParam(mu.Value, hc); a != nil {
+				e.val = a
+			}
+			out = append(out, e)
+		}
+	}
+	return out
 }
 
 // rpcDoShape resolves the semantic pieces of Engine.Do: the handler closure
@@ -50,9 +94,9 @@ func rpcDoShape(c *engine.Ctx, rule string) *rpcDo {
 		return nil
 	}
 	c.SawFunc(s.handler)
-	for _, mu := range mapUpdatesOf(do, "p:e.rpc") {
-		if closureOf(mu.Value) == s.handler {
-			s.reg = mu
+	for _, ed := range rpcEdits(do) {
+		if closureOf(ed.val) == s.handler {
+			s.reg = ed.at
 		}
 	}
 	if s.reg == nil {
@@ -95,11 +139,41 @@ func c24(c *engine.Ctx) {
 
 	// ---- R1: registration / cleanup / lookup keys and locks
 	n1 := 0
-	for _, mu := range mapUpdatesOf(do, "p:e.rpc") {
+	_ = ls
+	// updates of Do itself and of the engine methods it calls (setHandler,
+	// a cancel helper that installs the no-op handler); an update two levels down
+	// is found through the method in between
+	var edits []rpcEdit
+	for _, f := range withHelpers(do, 1) {
+		if f.Parent() != nil {
+			continue
+		}
+		for _, ed := range rpcEdits(f) {
+			if f != do {
+				if ed.at == ssa.Instruction(ed.inner) {
+					continue // f's own update: already seen from Do through the call of f
+				}
+				// key in Do's terms: through the call(s) of f in Do
+				for _, site := range staticCallsOf(do, f) {
+					e2 := ed
+					for i, p := range f.Params {
+						args := engine.Args(site.Common())
+						if i < len(args) {
+							e2.keyDesc = replaceToken(e2.keyDesc, "p:"+engine.ParamName(p), engine.Describe(args[i]))
+						}
+					}
+					edits = append(edits, e2)
+				}
+				continue
+			}
+			edits = append(edits, ed)
+		}
+	}
+	for _, ed := range edits {
 		n1++
-		k := "Do/e.rpc-update#" + ordinal(do, mu)
-		c.Check(engine.Describe(mu.Key) == "p:req.MsgID", "C24.R1", k+"/key", mu.Pos(), "handler must be stored under req.MsgID (key is %s)", engine.Describe(mu.Key))
-		c.Check(heldAt(ls, mu, "p:e.mux"), "C24.R1", k+"/lock", mu.Pos(), "e.rpc must be updated under e.mux (held: %v)", keys(ls[mu]))
+		k :="Do/e.rpc-update#" + itoa(int64(n1-1))
+		c.Check(ed.keyDesc == "p:req.MsgID", "C24.R1", k+"/key", ed.at.Pos(), "handler must be stored under req.MsgID (key is %s)", ed.keyDesc)
+		c.Check(ed.locked, "C24.R1", k+"/lock", ed.at.Pos(), "e.rpc must be updated under e.mux")
 	}
 	// deferred cleanup
 	cleanupOK := false
@@ -114,13 +188,29 @@ func c24(c *engine.Ctx) {
 				continue
 			}
 			a := call.Common().Args
-			if descCell(a[0]) != "p:e.rpc" {
+			recvName := "e"
+			if g.Parent() == nil && len(g.Params) > 0 {
+				recvName = engine.ParamName(g.Params[0])
+			}
+			if descCell(a[0]) != "p:"+recvName+".rpc" {
 				continue
 			}
 			n1++
 			c.SawFunc(g)
 			keyOK := descCell(a[1]) == "p:req.MsgID"
 			lockOK := heldAt(gls, call, "fv:e.mux") && descCell(lockRecvOf(g, "fv:e.mux")) == "p:e.mux"
+			if g.Parent() == nil {
+				// a deferred method of the engine (defer e.removeHandler(req.MsgID)): the key
+				// is its parameter, judged by the argument of the defer; the lock is the
+				// receiver's
+				keyOK = false
+				for i, p := range g.Params {
+					if engine.Unwrap(a[1]) == ssa.Value(p) && i < len(d.Call.Args) {
+						keyOK = engine.Describe(d.Call.Args[i]) == "p:req.MsgID"
+					}
+				}
+				lockOK = heldAt(gls, call, "p:"+recvName+".mux") && len(d.Call.Args) > 0 && engine.Describe(d.Call.Args[0]) == "p:e"
+			}
 			cov := coversExits(d, s.reg)
 			c.Check(keyOK, "C24.R1", "Do/cleanup/key", call.Pos(), "deferred cleanup must delete the key the handler was registered under (deletes %s)", descCell(a[1]))
 			c.Check(lockOK, "C24.R1", "Do/cleanup/lock", call.Pos(), "deferred cleanup must delete under e.mux")
